@@ -90,7 +90,10 @@ BadFetchKinds == {"bad-encoding", "enc-hex", "enc-rot13", "enc-css", "bytes-char
                   "bytes-charset-unknown", "bytes-charset-undefined", "bytes-undecodable", "text-enc-no-such-encoding", "text-enc-undefined",
                   "text-enc-hex", "enc-undefined"}
 CodecRows == {[kind |-> "config", entry |-> "string", graph |-> "none", fetch |-> "content", text |-> t] :
-                 t \in {"charset-hex", "charset-css", "charset-rot13", "charset-unknown", "charset-undefined"}}
+                 t \in {"charset-hex", "charset-css", "charset-rot13", "charset-unknown", "charset-undefined",
+                        \* variables that refer to themselves or to each other; a lone surrogate (literal, escaped) with and without @charset
+                        "variables-self", "variables-cycle", "variables-cycle-unused", "surrogate-escape", "surrogate-literal", "surrogate-ascii-charset",
+                        "surrogate-in-selector"}}
              \cup {[kind |-> "config", entry |-> "string", graph |-> g, fetch |-> f, text |-> "plain"] : g \in {"chain3", "diamond"}, f \in BadFetchKinds}
 \* one declaration per known property name (read from the repository: NAMES_FILE) with a value built to make a backtracking
 \* matcher work hard: validation is part of "parsing returns in bounded time"
